@@ -6,14 +6,22 @@ from harness import expr_gen
 
 
 def main():
-    for fam, kw in (("pairs", {}), ("chains", {}), ("depth2", {"binops": '{"+","-","*","/","**","%",">","<="}'})):
+    for fam, kw in (("pairs", {}), ("chains", {}), ("shared", {}), ("depth2", {"binops": '{"+","-","*","/","**","%",">","<="}'})):
         trees, st = expr_gen.family(fam, **kw)
         print("Expr family %s: %d trees" % (fam, len(trees)))
+    import importlib
+    for name in ("c03", "c16"):
+        try:
+            importlib.import_module("harness.props." + name).warm()
+        except Exception as e:      # noqa
+            print(name, "warm skipped:", e)
     try:
-        from harness.props import c03
-        c03.warm()
+        from harness import sd_gen
+        for rs in (sd_gen.QUICK_RS, sd_gen.RECIPROCAL_RS):
+            t, _ = sd_gen.trajectories(sd_gen.PARAMS if rs is sd_gen.QUICK_RS else sd_gen.PARAMS[:3], rs)
+            print("SdModel trajectories: %d" % len(t))
     except Exception as e:      # noqa
-        print("c03 warm skipped:", e)
+        print("sd_gen warm skipped:", e)
 
 
 if __name__ == "__main__":
